@@ -35,7 +35,9 @@ def main(argv):
         for p in sorted(glob.glob(os.path.join(VERIF, "mutants", "C*", "*.patch"))):
             cases.append((os.path.basename(os.path.dirname(p)), p, "kill"))
         for p in sorted(glob.glob(os.path.join(VERIF, "mutants", "C*", "equiv", "*.patch"))):
-            cases.append((os.path.basename(os.path.dirname(os.path.dirname(p))), p, "silent"))
+            # u-*.patch: behaviour-preserving rewrites into idioms the engines do not model (std algorithms with lambdas):
+            # the check may answer "undecided" (exit 2) but must not raise an alarm
+            cases.append((os.path.basename(os.path.dirname(os.path.dirname(p))), p, "noalarm" if os.path.basename(p).startswith("u-") else "silent"))
         for m in sorted(glob.glob(os.path.join(VERIF, "seeded", "*", "meta.json"))):
             meta = json.load(open(m))
             pd = os.path.join(os.path.dirname(m), "patch.diff")
@@ -64,7 +66,7 @@ def main(argv):
             r = sh([os.path.join(VERIF, "verify"), prop, "--tier", "quick", "--no-evidence"], env=env, cwd=VERIF)
             sh(["patch", "-p1", "-s", "-R", "-i", patch], cwd=repo)
             rules = sorted(set(l.split()[1] for l in r.stdout.splitlines() if l.startswith("  violation ")))
-            good = (r.returncode == 1) if expect == "kill" else (r.returncode != 1) if expect == "miss" else (r.returncode == 0)
+            good = (r.returncode == 1) if expect == "kill" else (r.returncode != 1) if expect in ("miss", "noalarm") else (r.returncode == 0)
             verdict = {0: "silent", 1: "VIOLATION", 2: "analysis-broken"}.get(r.returncode, "rc=%d" % r.returncode)
             print("%-7s %-60s %-16s %-30s %s %.1fs" % (expect, os.path.relpath(patch, VERIF), verdict, ",".join(rules), "ok" if good else "MISSED" if expect == "kill" else "FALSE-ALARM", time.time() - t0))
             if not good:
